@@ -164,20 +164,48 @@ t = Transformer(zones_map, rules_map, links_map, %r, 2000, 2050, 60, 900 if %r =
 t.transform()
 d = t.get_data()
 print(json.dumps(dict(input_zones=inz, input_links=inl, zones=sorted(d[0]), links=sorted(d[2]),
-                      removed_zones={k: sorted(v) for k, v in d[3].items()}, removed_links={k: sorted(v) for k, v in d[5].items()})))
+                      removed_zones={k: sorted(v) for k, v in d[3].items()}, removed_links={k: sorted(v) for k, v in d[5].items()},
+                      notable_zones={k: sorted(v) for k, v in d[6].items()}, notable_policies={k: sorted(v) for k, v in d[7].items()},
+                      zone_policies={z: sorted({e['rules'] for e in eras if e['rules'] not in ('-', ':')}) for z, eras in d[0].items()})))
 """ % (os.path.join(build.REPO, 'tools'), indir, scope, scope)
 
 
-def accounting(R, indir, label):
-    """every input zone and link is either emitted or listed as removed with a reason"""
-    problems = []
-    ev = 0
+_NOTES = {}
+
+
+def notes_for(scratch, src_text):
+    """run extractor + transformer (both scopes) on a source once; returns {scope: dict | error string}; the dict has the input /
+    emitted / removed names, and 'trunc': zones carrying a documented truncation note (on the zone or on a policy it uses)"""
+    import hashlib
+    key = hashlib.sha1(src_text.encode()).hexdigest()[:12]
+    if key in _NOTES:
+        return _NOTES[key]
+    indir = os.path.join(scratch, 'acc_' + key)
+    make_input(indir, src_text)
+    res = {}
     for scope in ('basic', 'extended'):
         p = subprocess.run(['/venv/bin/python', '-c', _accounting_script(indir, scope)], capture_output=True, text=True)
         if p.returncode:
-            problems.append('%s/%s: transformer failed: %s' % (label, scope, p.stderr[-300:]))
+            res[scope] = 'transformer failed: ' + p.stderr[-300:]
             continue
         j = json.loads(p.stdout.strip().split('\n')[-1])
+        tr = {z for z, rs in j['notable_zones'].items() if any('truncated' in r for r in rs)}
+        trp = {pn for pn, rs in j['notable_policies'].items() if any('truncated' in r for r in rs)}
+        tr |= {z for z, ps in j['zone_policies'].items() if set(ps) & trp}
+        j['trunc'] = tr
+        res[scope] = j
+    _NOTES[key] = res
+    return res
+
+
+def accounting(R, scratch, src_text, label):
+    """every input zone and link is either emitted or listed as removed with a reason"""
+    problems = []
+    ev = 0
+    for scope, j in notes_for(scratch, src_text).items():
+        if isinstance(j, str):
+            problems.append('%s/%s: %s' % (label, scope, j))
+            continue
         for kind, inp, outp, rem in (('zone', j['input_zones'], j['zones'], j['removed_zones']), ('link', j['input_links'], j['links'], j['removed_links'])):
             for n in inp:
                 ev += 1
@@ -204,10 +232,63 @@ def semantic_run(R, scratch, src_text, zones, label, combos):
     finally:
         sys.path.remove(scratch)
     srcfile = os.path.join(indir, 'africa')
-    emitted = [z for z in zones if z in infos]
+    nt = notes_for(scratch, src_text).get('extended')
+    trunc = nt['trunc'] if isinstance(nt, dict) else set()
+    emitted = [z for z in zones if z in infos and z not in trunc]
     orc = oracle.oracle_for_source(srcfile, scratch, emitted, tag=label)
     ev, dist, fails = pyzones.worker((os.path.join(build.REPO, 'tools'), infos, orc, combos, 1, {}))
     return ev, dist, fails, indir
+
+
+def cpp_run(R, scratch, src_text, label):
+    """arduino target: both scopes generated from the source, compiled in place of the shipped tables, and run through the real
+    C++ processors (rtc/zones.cpp, mode c01) against zic on the same source"""
+    from rtc import native
+    indir = os.path.join(scratch, label + '_cin')
+    make_input(indir, src_text)
+    gen = os.path.join(scratch, label + '_gen')
+    emitted = {}
+    for scope, ns in (('basic', 'zonedb'), ('extended', 'zonedbx')):
+        out = os.path.join(gen, 'ace_time', ns)
+        rc, log = compile_source(indir, out, scope, 'arduino')
+        if rc != 0:
+            return 0, 0, ['%s: compiler (arduino, %s) failed: %s' % (label, scope, log[-400:])]
+        reg = open(os.path.join(out, 'zone_registry.cpp')).read()
+        body = reg[reg.index('kZoneRegistry['):]
+        emitted[ns] = re.findall(r'&kZone(\w+), // (\S+)', body)
+    try:
+        exe = native.build_custom_db('zones', gen, label)
+    except RuntimeError as e:
+        return 0, 0, ['%s: generated tables do not build: %s' % (label, str(e)[-600:])]
+    ev = dist = 0
+    fails = []
+    for ns in ('zonedb', 'zonedbx'):
+        names = [n for _, n in emitted[ns]]
+        if not names:
+            continue
+        nt = notes_for(scratch, src_text).get('basic' if ns == 'zonedb' else 'extended')
+        trunc = nt['trunc'] if isinstance(nt, dict) else set()
+        orc = oracle.oracle_for_source(os.path.join(indir, 'africa'), scratch, names, tag=label + ns)
+        path = os.path.join(scratch, '%s_%s.oracle' % (label, ns))
+        with open(path, 'w') as f:
+            for n, segs in orc:
+                f.write('Z %s %d %d %d %s\n' % (n, len(segs) - 1, segs[0][1], segs[0][2], segs[0][3]))
+                for (t, off, dst, ab) in segs[1:]:
+                    f.write('T %d %d %d %s\n' % (t, off, dst, ab))
+        for zi, zn in enumerate(names):
+            if zn in trunc:
+                continue            # carries a documented truncation note: excepted from the comparison by the property
+            rc, out, err = native.run(exe, ['c01', ns, path, str(zi), str(zi + 1), '86400'], timeout=600)
+            for line in out.split('\n'):
+                if line.startswith('FAIL'):
+                    fails.append('C++ %s (generated from %s): %s' % (ns, label, line[5:].strip()))
+                elif line.startswith('SUMMARY'):
+                    j = json.loads(line[8:])
+                    ev += j['evaluations']
+                    dist += j['distinct']
+            if rc not in (0, 1):
+                fails.append('C++ %s harness on generated tables exited %s: %s' % (ns, rc, err[-300:]))
+    return ev, dist, fails
 
 
 def time_string_bounded():
@@ -256,6 +337,24 @@ def run(R):
     combos = [(14, True, True), (13, False, False)]
     ev, dist, fails, syn_in = semantic_run(R, scratch, syn, syn_zones, 'synthetic', combos)
     problems += fails
+    uns = open(os.path.join(HERE, 'rtc', 'tzsrc', 'synthetic_unsupported')).read()
+    uns_zones = re.findall(r'^Zone\s+(\S+)', uns, re.M)
+    e_u, d_u, f_u, uns_in = semantic_run(R, scratch, uns, uns_zones, 'unsupported', combos[:1])
+    ev += e_u
+    dist += d_u
+    problems += f_u
+    cev = cdist = 0
+    cfails = []
+    for lbl, text in (('syncpp', syn), ('unscpp', uns)):
+        a, b, c = cpp_run(R, scratch, text, lbl)
+        cev += a
+        cdist += b
+        cfails += c
+    problems += cfails
+    R.bounded.append(dict(name='arduino target: tables generated from the synthetic sources (both scopes) compiled in place of the shipped ones and run through the real C++ processors vs zic',
+                          bound='synthetic corner-value source and synthetic partly-unsupported source; every zone emitted in either scope; every transition neighbourhood and a daily grid 2000..2049',
+                          evaluations=cev, distinct_nontrivial=cdist, rule='one evaluation = (offset, DST flag, abbreviation) at one instant; distinct = transitions of the oracle',
+                          samples=[dict(zone='Syn/MinusQuarter', scope='extended')] + [dict(fail=f[:300]) for f in cfails[:3]]))
     # seeded mutations of the synthetic source that stay inside the feature set: shifted offsets / SAVE values / AT times
     import random
     rnd = random.Random(R.seed)
@@ -268,22 +367,25 @@ def run(R):
         save = rnd.choice(['0:30', '1:00', '2:00', '0:20'])
         text = text.replace('Mar\tFri<=7\t24:00\t0:30\tH', 'Mar\tFri<=%d\t%s\t%s\tH' % (rnd.choice([7, 14, 21]), rnd.choice(['24:00', '23:00', '0:00', '2:30']), save))
         e2, d2, f2, mut_in = semantic_run(R, scratch, text, syn_zones, 'mut%d' % k, combos[:1])
-        ea, fa = accounting(R, mut_in, 'mut%d' % k)
+        ea, fa = accounting(R, scratch, text, 'mut%d' % k)
         ev_mut_acc += ea
         f2 = f2 + fa
         ev += e2
         dist += d2
         problems += f2
     R.bounded.append(dict(name='extractor -> transformer -> python generator -> ZoneSpecifier vs zic on the same source',
-                          bound='synthetic corner-value source (9 zones) + %d seeded mutations of it; extended scope, python target; every transition -1s/0/+1s and 4 instants per year 2000..2049' % nmut,
+                          bound='synthetic corner-value source (9 zones), synthetic partly-unsupported source (14 zones) + %d seeded mutations; extended scope, python target; every transition -1s/0/+1s and 4 instants per year 2000..2049' % nmut,
                           evaluations=ev, distinct_nontrivial=dist, rule='one evaluation = (total offset, DST flag, abbreviation) at one instant; distinct = (zone, option combination, source)',
                           samples=[dict(zone='Syn/MinusHalf', line='Zone Syn/MinusHalf -0:30 - -0030', expect='UTC offset -1800 s')]))
     # accounting
-    ev_a, pa = accounting(R, syn_in, 'synthetic')
+    ev_a, pa = accounting(R, scratch, syn, 'synthetic')
     problems += pa
-    ev_b, pb = accounting(R, os.path.join(scratch, 'zonedbx_in'), 'recorded-2020d-lines')
+    ev_u, pu = accounting(R, scratch, uns, 'unsupported')
+    ev_a += ev_u
+    problems += pu
+    ev_b, pb = accounting(R, scratch, open(os.path.join(scratch, 'zonedbx_in', 'africa')).read(), 'recorded-2020d-lines')
     problems += pb
-    R.bounded.append(dict(name='accounting: every input zone / link is emitted or listed as removed with a reason', bound='synthetic source, its seeded mutations and the recorded 2020d lines x both scopes',
+    R.bounded.append(dict(name='accounting: every input zone / link is emitted or listed as removed with a reason', bound='both synthetic sources, the seeded mutations and the recorded 2020d lines x both scopes',
                           evaluations=ev_a + ev_b + ev_mut_acc, distinct_nontrivial=4 + 2 * nmut, rule='one evaluation per input zone or link', samples=[dict(zone='Syn/Era', emitted=True)]))
     n_ts, p_ts = time_string_bounded()
     problems += p_ts
